@@ -47,3 +47,10 @@ Definition list_remove {A} (l:list A) (i:N) : list A := list_remove_nat l (N.to_
 Definition sattr_is_mi (a:N * N) : bool := (fst a =? 8)%N.
 Definition sattr_is_sha (a:N * N) : bool := (fst a =? 28)%N.
 Definition sattr_is_fp (a:N * N) : bool := (fst a =? 32808)%N.
+(* A HashSet<T> of the translated agent code (integrity.rs: HashSet<TransactionId>) is a list of N under SET semantics:
+   contains(x) = set_mem, remove(x) deletes every occurrence (and returns set_mem), insert(x) adds x only when it is absent
+   (and returns negb set_mem). Proofs/CodeAgreeIntegrity.v: these are Model.mem / del / ins, membership after insert / remove
+   is what a set gives, and no duplicates arise. *)
+Definition set_mem (x:N) (l:list N) : bool := existsb (N.eqb x) l.
+Definition set_remove (x:N) (l:list N) : list N := filter (fun y => negb (y =? x)%N) l.
+Definition set_insert (x:N) (l:list N) : list N := if set_mem x l then l else x :: l.
